@@ -48,6 +48,10 @@ checks = {
    "The race-detector build (go build -race -tags verif) of the real csvq binary executes programs that split loading, filtering, joining, grouping, sorting, analytic functions, user functions, cursors and DML over 4..16 goroutines, with seeded scheduling jitter, repeated; every DATA RACE report with a csvq frame is a violation (deduplicated by the pair of top csvq frames).",
    "Only races on accesses performed in these runs are visible, and the detector keeps a bounded access history; held = no report on the executions observed.",
    "compiler sanitizer: Go race detector over stress workloads with injected scheduling jitter"),
+ "C17": ("exploration", "§5 C17",
+   "Generated tables (ties, NULLs, single-row and many partitions; every 8th case 200..900 rows with --cpu 2..8) and random analytic expressions (ranking functions, NTILE, LAG/LEAD with offsets/defaults/IGNORE NULLS, FIRST/LAST/NTH_VALUE with random ROWS frames and IGNORE NULLS, aggregates and a user-defined aggregate with OVER and random frames) are evaluated by the real pipeline; an independent evaluator partitions, orders and applies each definition to every row's frame; other columns and the row count must be unchanged.",
+   "Unspecified corners are generated only where they cannot influence the verdict: the default frame of an ordered clause without windowing clause, the offset semantics of LAG/LEAD IGNORE NULLS beyond 1, PERCENT_RANK of a single-row partition.",
+   "runtime monitor: differential check against an independent per-partition/per-frame evaluator"),
 }
 order = ["C%02d" % i for i in range(1, 21)]
 na_reason = "check not built yet in this session (work in progress; see DESIGN.md)"
